@@ -1148,6 +1148,7 @@ pub fn id(x: a) -> a { x }
 pub fn pick(a: Figure, b: Figs) -> Figure { a }
 pub fn area(s) { case s { Circle(r: r) -> r * r Square(side: x) -> x * x } }
 pub const k = 1
+pub type Tone { Low High }
 ";
 
 /// Functions of a module that uses `lib` through one import form; (function text with `{Q}` for
@@ -1172,6 +1173,10 @@ fn cross_cases() -> Vec<(&'static str, RTy)> {
         ("fn c13(x: {Q}Figure) -> {Q}Figs { [x] }", f(vec![shape()], List(Box::new(shape())))),
         ("fn c14(s) { case s { {Q}Circle(r: n) -> n {Q}Square(side: n) -> n } }", f(vec![shape()], Int)),
         ("fn c15(w: {Q}Wrap({Q}Figure)) { w.inner }", f(vec![wrap(shape())], shape())),
+        // a constructor without fields of the other module's plain type, then something of the using module
+        ("fn c16() { let t = {Q}Low let h = home(1) #(t, h) }", f(vec![], Tuple(vec![Named("Tone".into(), vec![]), Named("Own".into(), vec![])]))),
+        ("fn c17(t) { case t { {Q}Low -> home(1) {Q}High -> home(2) } }", f(vec![Named("Tone".into(), vec![])], Named("Own".into(), vec![]))),
+        ("fn c18() { let t = {Q}High let o: Own = home(3) #(o, t) }", f(vec![], Tuple(vec![Named("Own".into(), vec![]), Named("Tone".into(), vec![])]))),
     ]
 }
 
@@ -1183,7 +1188,7 @@ fn cross_module_layer(rep: &mut Report) {
         ("qualified", "import lib\n", "lib."),
         ("module alias", "import lib as l\n", "l."),
         ("same module", XLIB, ""),
-        ("unqualified", "import lib.{type Figure, type Figs, type Pred, type Shape, type WInt, type Wrap, type Pairs, mk, id, pick, area, k, Circle, Square, Wrap}\n", ""),
+        ("unqualified", "import lib.{type Figure, type Figs, type Pred, type Shape, type WInt, type Wrap, type Pairs, type Tone, mk, id, pick, area, k, Circle, Square, Wrap, Low, High}\n", ""),
     ];
     let cases = cross_cases();
     let mut l = Layer { name: "across-modules".into(), exhaustive: true, ..Default::default() };
@@ -1195,7 +1200,7 @@ fn cross_module_layer(rep: &mut Report) {
             if order == 1 {
                 fns.reverse();
             }
-            let main = format!("{import}{}\n", fns.join("\n"));
+            let main = format!("{import}pub type Own {{ Own(n: Int) }}\nfn home(n: Int) -> Own {{ Own(n) }}\n{}\n", fns.join("\n"));
             let ws = crate::ana::ws::Workspace::single(&[("main", &main), ("lib", XLIB)]);
             let files = ws.files();
             let host = ws.host();
@@ -1221,13 +1226,13 @@ fn cross_module_layer(rep: &mut Report) {
                     _ => false,
                 };
                 if !ok {
-                    let tags = ["alias", "alias of a list", "alias of a function type", "alias of a generic instance", "function", "generic function", "module constant used as a value", "field of a constructed generic record", "function with alias parameters", "generic constructor", "generic alias", "unannotated function", "alias in a return annotation", "constructor patterns", "generic record of an alias"];
+                    let tags = ["alias", "alias of a list", "alias of a function type", "alias of a generic instance", "function", "generic function", "module constant used as a value", "field of a constructed generic record", "function with alias parameters", "generic constructor", "generic alias", "unannotated function", "alias in a return annotation", "constructor patterns", "generic record of an alias", "field-less constructor, then the using module's own items", "field-less constructor patterns, then the using module's own items", "field-less constructor, then an annotation naming the using module's type"];
                     rep.violation(Violation { class: "function-type".into(), key: format!("across-modules|{fname}|{}", tags.get(k).copied().unwrap_or("?")), witness: json!({"cross_form": fname, "order": order, "case": k}), detail: format!("[{fname} import] `{}`: shown {got:?}, Gleam's type is `{}`", cases[k].0.replace("{Q}", q), show(want)) });
                 }
             }
         }
     }
-    l.bound = format!("{} functions using another module's aliases (plain, of a list, of a function type, generic, of a generic instance), generic record, functions, constant and constructors x 5 forms (declared in the same module, qualified import, module alias, unqualified import, unqualified import of the aliases alone) x 2 orders of the using module's functions", cases.len());
+    l.bound = format!("{} functions using another module's aliases (plain, of a list, of a function type, generic, of a generic instance), generic record, functions, constant and constructors (and field-less constructors of a plain type followed by items of the using module) x 5 forms (declared in the same module, qualified import, module alias, unqualified import, unqualified import of the aliases alone) x 2 orders of the using module's functions", cases.len());
     rep.layer(l);
 }
 
